@@ -90,20 +90,22 @@ def odd_cells(rng):
 
 
 def custom_fluid(rng):
-    """liquid whose properties use every property class that can be stored (the polynomial class is exercised
-    by its own net in tools/props/c15.py: to_json raises for it)"""
+    """liquid whose properties use every property class (polynomial and bounded interpolation included since
+    /repo 6484bf8 / 912ff6d made them storable)"""
     import pandapipes as pp
     from pandapipes.properties.fluids import Fluid, FluidPropertyConstant, FluidPropertyLinear, \
         FluidPropertyInterExtra, FluidPropertyPolynominal, FluidPropertySutherland
     t = np.array([273.15, 293.15, 313.15, 333.15, 373.15])
     fl = Fluid("my_liquid", "liquid",
                density=FluidPropertyInterExtra(t, np.array([999.8, 998.2, 992.2, 983.2, 958.4])),
-               viscosity=FluidPropertyLinear(-1.2e-5, 4.6e-3),
+               viscosity=FluidPropertyPolynominal(t, np.array([1.79e-3, 1.0e-3, 0.65e-3, 0.47e-3, 0.28e-3]), 2),
+               thermal_conductivity=FluidPropertyLinear(1.2e-3, 0.25),
                heat_capacity=FluidPropertyLinear(0.1 / 3, 4170.0),
                molar_mass=FluidPropertyConstant(18.015),
                der_compressibility=FluidPropertyConstant(0.0),
                compressibility=FluidPropertyConstant(1.0),
-               lhv=FluidPropertySutherland(1.2e-5, 273.0, 110.4))
+               lhv=FluidPropertySutherland(1.2e-5, 273.0, 110.4),
+               bounded=FluidPropertyInterExtra(t, t * 2.0, method="interpolate"))
     net = pp.create_empty_network("custom fluid", fluid=fl)
     j = [pp.create_junction(net, 5.0, 300.0) for _ in range(3)]
     pp.create_ext_grid(net, j[0], 5.0, 300.0)
